@@ -62,12 +62,20 @@ def apply(S, ev: dict, mag: int = 0):
     ttb = bind.ttb
     op = ev["op"]
     rv = ev["args"]["rhs"]
-    r = float(rv["val"]) if rv["kind"] == "scalar" else bind.gamma(rv)
+    if rv["kind"] == "scalar":
+        # the type of a scalar operand is a presentation (rotated with the array layout): Python float / int, or the
+        # numpy scalars that arithmetic on arrays produces (X.data.max(), np.float32 settings, ...)
+        v = float(rv["val"])
+        r = {"default": float, "swapped": (np.int64 if v.is_integer() else np.float64),
+             # (a quotient by a float32 scalar is rounded to float32 by numpy's own promotion rules: float64 there)
+             "strided": (np.float64 if op in ("div", "rdiv") else np.float32), "grown": (int if v.is_integer() else float)}[bind.get_layout()](v)
+    else:
+        r = bind.gamma(rv)
     if mag and op in SCALE_FREE and S.vals.dtype.kind == "f":
         f = 2.0 ** mag
         S = ttb.sptensor(S.subs.copy(), S.vals * f, S.shape)
-        if isinstance(r, float):
-            r = r * f
+        if rv["kind"] == "scalar":
+            r = float(r) * f
         elif isinstance(r, ttb.sptensor):
             r = ttb.sptensor(r.subs.copy(), r.vals * f, r.shape)
         else:
